@@ -77,7 +77,11 @@ def obligations(tier, seed):
         KaniOb("c04", "c04_f64_seconds_exact", "integer-valued float seconds (|s| <= 2^32) convert to exactly that many seconds",
                ["impl Mul<f64> for Unit", "impl Mul<Unit> for f64", "Duration::from_truncated_nanoseconds"], f"every integer |k| <= 2^{KBITS.get(tier, 22)} as f64 (quick: 2^12 s; thorough: 2^20 s; larger ranges did not finish in 900 s: SAT equivalence of the IEEE product with the integer product)", tq=900, tt=7200),
         KaniOb("c04", "c04_add_f64_structural", "Epoch + f64 == Epoch + f64*Unit::Second, scale kept (with c04_f64_seconds_exact and c04_add this gives exactness for integer seconds)",
-               ["impl Add<f64> for Epoch"], "nine scales x all canonical durations x finite |x| < 4e9", tq=900),
+               ["impl Add<f64> for Epoch"], "nine scales x all canonical durations x finite |x| < 1e11 s (3170 years; crosses the i64-nanosecond limit at 9.22e9 s)", tq=1200),
+        KaniOb("c04", "c04_forms_utc", "Kani twin for the UTC scale: +, -, +=, -= with Unit and Duration change the elapsed UTC time by exactly that amount (keeps a verdict when a change routes a form through a leap-second conversion)",
+               ["impl Add/Sub/AddAssign/SubAssign <Unit|Duration> for Epoch"], "UTC epochs 1900-2100 at ns resolution x 9 units; unwind 44", tq=1500),
+        KaniOb("c04", "c04_diff_utc_tai", "UTC - TAI is measured in UTC, TAI - UTC in TAI (right operand re-expressed via the IERS oracle table)",
+               ["impl Sub for Epoch", "Epoch::to_time_scale (UTC arms)"], "both epochs anywhere in 1900-2100 at ns resolution; unwind 44", tq=2400, mem=30),
         KaniOb("c04", "c04_add_f64", "Epoch + f64 seconds (an exact integer): elapsed time changes by exactly that many seconds, scale unchanged",
                ["impl Add<f64> for Epoch", "impl Mul<f64> for Unit", "Duration::from_truncated_nanoseconds", "impl Add for Duration"],
                "all nine scales x durations |centuries| < 15000 x integer-valued f64 with |s| <= 2^32", tq=3000, tier="thorough", mem=30),
